@@ -688,4 +688,135 @@ theorem refines_read {w : World} {st : S} (h : R w st) (s len : Nat) (hlen : 0 <
                by intro cur l hx; simp at hx; obtain ⟨a, b⟩ := hx; subst a; subst b; exact ⟨m.cands, rfl⟩,
                hlt, hinc, by intro cur l hx; simp at hx; obtain ⟨a, b⟩ := hx; subst b; exact hlen⟩
 
+/-- Socket `s` has no completable read left: if a read is registered, the receive queue is empty. -/
+def Drained (w : World) (s : Nat) : Prop := ∀ m, live w s = some m → m.read.isSome = true → m.rxq = []
+
+theorem live_put_other {w : World} {s s' : Nat} (m : MSock) (hne : s' ≠ s) : live (Model.Datagram.put w s m) s' = live w s' := by
+  simp [live, Model.Datagram.put, upd, hne]
+
+theorem live_put_same {w : World} {s : Nat} (m : MSock) (hs : s < maxSock) :
+    live (Model.Datagram.put w s m) s = if m.closed then none else some m := by
+  simp [live, Model.Datagram.put, upd, hs]
+
+theorem run_nil (st : S) : Sonic.Spec.Datagram.run st [] = .ok st := rfl
+
+theorem accept_pollOne {w : World} {st : S} (h : R w st) (s : Nat) :
+    ∃ st', Sonic.Spec.Datagram.run st (pollOne w s).2 = .ok st' ∧ R (pollOne w s).1 st' ∧ Drained (pollOne w s).1 s
+      ∧ (∀ s', Drained w s' → Drained (pollOne w s).1 s') := by
+  unfold pollOne
+  cases hl : live w s with
+  | none => exact ⟨st, rfl, h, fun m hm => by simp [hl] at hm, fun _ hd => hd⟩
+  | some m =>
+    dsimp only
+    obtain ⟨hs, hw, hcl, t, ht, hr⟩ := h.ofLive hl
+    cases hrd : m.read with
+    | none =>
+      refine ⟨st, rfl, h, fun m' hm' hx => ?_, fun _ hd => hd⟩
+      rw [hl] at hm'; cases hm'; simp [hrd] at hx
+    | some x =>
+      obtain ⟨cur, len⟩ := x
+      dsimp only
+      cases hrecv : recv s m cur len with
+      | none =>
+        refine ⟨st, rfl, h, fun m' hm' _ => ?_, fun _ hd => hd⟩
+        rw [hl] at hm'; cases hm'; exact recv_none hrecv
+      | some y =>
+        obtain ⟨m', ev⟩ := y
+        have hout : t.out = m.rxq := by rw [hr.out]; simp [hcl]
+        obtain ⟨d, q, hq, hm', hstep⟩ := accept_recv (hr.readLen cur len hrd) ht hout (by rw [hr.pend, hrd])
+          (hr.cands cur len hrd) hr.candsInc hrecv
+        dsimp only
+        have hR : R (Model.Datagram.put w s m') (setSock st s { t with out := q, pend := none }) := by
+          rw [hm']
+          refine h.putSock s ⟨hr.kern, hr.isOpen, by simp [hcl], rfl, fun _ => rfl, hr.memb, hr.getters, ?_, ?_, ?_, ?_⟩
+          · intro cur l hx; simp at hx
+          · intro c hc; simp at hc
+          · simp
+          · intro cur l hx; simp at hx
+        refine ⟨_, by rw [run_one]; exact hstep, hR, ?_, ?_⟩
+        · intro m2 hm2 hx
+          rw [live_put_same _ hs] at hm2
+          rw [hm'] at hm2
+          simp only [hcl, Bool.false_eq_true, if_false, Option.some.injEq] at hm2
+          subst hm2
+          simp at hx
+        · intro s' hd m2 hm2 hx
+          by_cases hne : s' = s
+          · subst hne
+            rw [live_put_same _ hs, hm'] at hm2
+            simp only [hcl, Bool.false_eq_true, if_false, Option.some.injEq] at hm2
+            subst hm2
+            simp at hx
+          · rw [live_put_other _ hne] at hm2
+            exact hd m2 hm2 hx
+
+theorem accept_pollAll {w : World} {st : S} (h : R w st) (L : List Nat) :
+    ∃ st', Sonic.Spec.Datagram.run st (pollAll w L).2 = .ok st' ∧ R (pollAll w L).1 st'
+      ∧ (∀ s ∈ L, Drained (pollAll w L).1 s) ∧ (∀ s', Drained w s' → Drained (pollAll w L).1 s') := by
+  induction L generalizing w st with
+  | nil => exact ⟨st, rfl, h, fun _ hs => by simp at hs, fun _ hd => hd⟩
+  | cons s r ih =>
+    obtain ⟨st1, hrun1, hR1, hd1, hp1⟩ := accept_pollOne h s
+    obtain ⟨st2, hrun2, hR2, hd2, hp2⟩ := ih hR1
+    simp only [pollAll]
+    refine ⟨st2, ?_, hR2, ?_, fun s' hd => hp2 s' (hp1 s' hd)⟩
+    · rw [run_append, hrun1]; exact hrun2
+    · intro s' hs'
+      simp only [List.mem_cons] at hs'
+      rcases hs' with hs' | hs'
+      · subst hs'; exact hp2 _ hd1
+      · exact hd2 s' hs'
+
+theorem step_polled {st : S}
+    (hany : ((List.range maxSock).any fun r => match st.socks r with
+      | some t => t.isOpen && t.pend.isSome && !t.out.isEmpty | none => false) = false) :
+    Sonic.Spec.Datagram.step st .polled = .ok st := by
+  show (if _ = true then _ else _) = _
+  rw [if_neg]
+  intro hc
+  exact Bool.noConfusion (hc.symm.trans hany)
+
+theorem no_completable {w' : World} {st' : S} (hR : R w' st') (L : List Nat) (hL : ∀ r ∈ L, r < maxSock)
+    (hd : ∀ s ∈ L, Drained w' s) :
+    (L.any fun r => match st'.socks r with
+      | some t => t.isOpen && t.pend.isSome && !t.out.isEmpty | none => false) = false := by
+  rw [List.any_eq_false]
+  intro r hr
+  have hrlt : r < maxSock := hL r hr
+  have hopt := hR.socks r
+  cases hs : st'.socks r with
+  | none => simp
+  | some t =>
+    cases hw : w'.socks r with
+    | none => rw [hs, hw] at hopt; simp [OptR] at hopt
+    | some m =>
+      rw [hs, hw] at hopt
+      have hsr : SockR _ m t := hopt
+      simp only
+      by_cases hcl : m.closed = true
+      · simp [hsr.isOpen, hcl]
+      · have hcl' : m.closed = false := by simpa using hcl
+        have hlive : live w' r = some m := by simp [live, hrlt, hw, hcl']
+        cases hp : t.pend with
+        | none => simp
+        | some x =>
+          have hrd : m.read.isSome = true := by rw [← hsr.pend, hp]; rfl
+          have hq := hd r hr m hlive hrd
+          have : t.out = [] := by rw [hsr.out]; simp [hcl', hq]
+          simp [this]
+
+theorem step_poll_eq (w : World) :
+    Model.Datagram.step w .poll = ((pollAll w (List.range maxSock)).1, (pollAll w (List.range maxSock)).2 ++ [.polled]) := rfl
+
+theorem refines_poll {w : World} {st : S} (h : R w st) : Refines w st .poll := by
+  unfold Refines
+  rw [step_poll_eq]
+  obtain ⟨st', hrun, hR, hd, _⟩ := accept_pollAll h (List.range maxSock)
+  refine ⟨st', ?_, hR⟩
+  show Sonic.Spec.Datagram.run st ((pollAll w (List.range maxSock)).2 ++ [.polled]) = .ok st'
+  rw [run_append, hrun]
+  show Sonic.Spec.Datagram.run st' [.polled] = .ok st'
+  rw [run_one]
+  exact step_polled (no_completable hR _ (fun r hr => List.mem_range.1 hr) hd)
+
 end Sonic.Lemmas.Datagram
